@@ -1,4 +1,4 @@
-CONSTANTS PRE = 3 CUT = 5 NBH = 16 BUFSZ = 8 THRESH = 4 MINREAD = 2 FIXRA = TRUE FIXCR = FALSE MAXDOCS = 2
+CONSTANTS PRE = 3 CUT = 5 NBH = 16 BUFSZ = 8 THRESH = 4 MINREAD = 2 FIXRA = TRUE FIXCR = TRUE MAXDOCS = 2
 INIT Init
 NEXT Next
 INVARIANTS ErrAgree NoCleanEnd LineBaseInv PipeNeverDiscarded PipeCorrectOrD13 FileCorrectOrKnown FileSignature FileRefines
